@@ -119,17 +119,23 @@ struct Target<'a> {
 fn check_arm<H: Handle>(cx: &mut Ctx, arm: &str, first: Result<prometheus::Result<H>, String>, second: Result<prometheus::Result<H>, String>, twin: prometheus::Result<H>, target: &Target, other: &Registry, amount: u64) {
     cx.part.evaluations += 1;
     cx.part.count("macro_invocations", 2);
+    let tag = cx.case_tag;
     cx.distinct(|h| {
         h.str(arm);
         h.u64(target.custom.is_some() as u64);
         h.u64(target.prefix.is_some() as u64);
+        h.u64(tag);
     });
     let detail = |extra: String| jobj! {"arm" => arm, "note" => extra};
     let twin = match twin {
         Ok(t) => t,
         Err(e) => {
+            // the explicit constructor refuses these arguments: the macro (which unwraps the constructor's
+            // result) must not quietly produce a metric either
             cx.part.count("twin_refused", 1);
-            let _ = e;
+            if let Ok(Ok(_)) = first {
+                cx.violation("macro-accepts-arguments-the-explicit-constructor-refuses", arm, format!("explicit constructor: {}", e), detail(String::new()));
+            }
             return;
         }
     };
@@ -232,12 +238,33 @@ pub fn run_case(cx: &mut Ctx) {
     let nl = 1 + rng.usize_below(3);
     let label_names: Vec<&str> = label_pool[..nl].to_vec();
     let label_names = label_names.as_slice();
-    let buckets: Vec<f64> = match rng.below(3) {
+    let buckets: Vec<f64> = match rng.below(9) {
         0 => vec![0.5, 1.0, 2.5],
         1 => vec![1.0],
-        _ => vec![-1.0, 0.0, 10.0, 1e9],
+        2 => vec![-1.0, 0.0, 10.0, 1e9],
+        3 => vec![f64::NEG_INFINITY, 0.0, 1.0],
+        4 => vec![f64::INFINITY],
+        5 => vec![0.25, f64::INFINITY],
+        6 => vec![f64::NEG_INFINITY],
+        7 => vec![0.5, f64::INFINITY, 1.0], // refused by the explicit constructor
+        _ => vec![5e-324, 1.0, f64::MAX],
     };
+    let strictly_increasing = buckets.windows(2).all(|w| w[0] < w[1]);
+    let vbuckets: Vec<f64> = if strictly_increasing { buckets.clone() } else { vec![1.0, 2.0] };
     let const_labels = gen_labels(&mut rng, &label_pool);
+    cx.case_tag = {
+        let mut h = vcore::prng::Fnv::new();
+        h.str(help);
+        buckets.iter().for_each(|b| h.u64(b.to_bits()));
+        let mut cl: Vec<_> = const_labels.iter().collect();
+        cl.sort();
+        cl.iter().for_each(|(k, v)| {
+            h.str(k);
+            h.str(v);
+        });
+        h.u64(label_names.len() as u64);
+        h.finish()
+    };
     let mut amount = 100 + rng.below(1000);
     let mut next_amount = || {
         amount += 7;
@@ -300,6 +327,7 @@ pub fn run_case(cx: &mut Ctx) {
     }
     let mkopts = |name: &str| Opts::new(name.to_string(), help).const_labels(const_labels.clone());
     let mkhopts = |name: &str| HistogramOpts::new(name.to_string(), help).const_labels(const_labels.clone()).buckets(buckets.clone());
+    let mkvhopts = |name: &str| HistogramOpts::new(name.to_string(), help).const_labels(const_labels.clone()).buckets(vbuckets.clone());
 
     // ---- scalar metrics --------------------------------------------------------------------
     macro_rules! scalar_arms {
@@ -380,21 +408,21 @@ pub fn run_case(cx: &mut Ctx) {
     arm!("register_histogram_with_registry!(hopts,reg,)", &cust, register_histogram_with_registry!(mkhopts(&a), reg,), Histogram::with_opts(mkhopts(&a)));
 
     let a = n("hv_o");
-    arm!("register_histogram_vec!(hopts,labels)", &dflt, register_histogram_vec!(mkhopts(&a), label_names), HistogramVec::new(mkhopts(&a), label_names));
+    arm!("register_histogram_vec!(hopts,labels)", &dflt, register_histogram_vec!(mkvhopts(&a), label_names), HistogramVec::new(mkvhopts(&a), label_names));
     let a = n("hv_oc");
-    arm!("register_histogram_vec!(hopts,labels,)", &dflt, register_histogram_vec!(mkhopts(&a), label_names,), HistogramVec::new(mkhopts(&a), label_names));
+    arm!("register_histogram_vec!(hopts,labels,)", &dflt, register_histogram_vec!(mkvhopts(&a), label_names,), HistogramVec::new(mkvhopts(&a), label_names));
     let a = n("hv_nh");
     arm!("register_histogram_vec!(name,help,labels)", &dflt, register_histogram_vec!(a.clone(), help, label_names), HistogramVec::new(HistogramOpts::new(a.clone(), help), label_names));
     let a = n("hv_nhc");
     arm!("register_histogram_vec!(name,help,labels,)", &dflt, register_histogram_vec!(a.clone(), help, label_names,), HistogramVec::new(HistogramOpts::new(a.clone(), help), label_names));
     let a = n("hv_nhb");
-    arm!("register_histogram_vec!(name,help,labels,buckets)", &dflt, register_histogram_vec!(a.clone(), help, label_names, buckets.clone()), HistogramVec::new(HistogramOpts::new(a.clone(), help).buckets(buckets.clone()), label_names));
+    arm!("register_histogram_vec!(name,help,labels,buckets)", &dflt, register_histogram_vec!(a.clone(), help, label_names, vbuckets.clone()), HistogramVec::new(HistogramOpts::new(a.clone(), help).buckets(vbuckets.clone()), label_names));
     let a = n("hv_nhbc");
-    arm!("register_histogram_vec!(name,help,labels,buckets,)", &dflt, register_histogram_vec!(a.clone(), help, label_names, buckets.clone(),), HistogramVec::new(HistogramOpts::new(a.clone(), help).buckets(buckets.clone()), label_names));
+    arm!("register_histogram_vec!(name,help,labels,buckets,)", &dflt, register_histogram_vec!(a.clone(), help, label_names, vbuckets.clone(),), HistogramVec::new(HistogramOpts::new(a.clone(), help).buckets(vbuckets.clone()), label_names));
     let a = n("hv_ro");
-    arm!("register_histogram_vec_with_registry!(hopts,labels,reg)", &cust, register_histogram_vec_with_registry!(mkhopts(&a), label_names, reg), HistogramVec::new(mkhopts(&a), label_names));
+    arm!("register_histogram_vec_with_registry!(hopts,labels,reg)", &cust, register_histogram_vec_with_registry!(mkvhopts(&a), label_names, reg), HistogramVec::new(mkvhopts(&a), label_names));
     let a = n("hv_roc");
-    arm!("register_histogram_vec_with_registry!(hopts,labels,reg,)", &cust, register_histogram_vec_with_registry!(mkhopts(&a), label_names, reg,), HistogramVec::new(mkhopts(&a), label_names));
+    arm!("register_histogram_vec_with_registry!(hopts,labels,reg,)", &cust, register_histogram_vec_with_registry!(mkvhopts(&a), label_names, reg,), HistogramVec::new(mkvhopts(&a), label_names));
     let a = n("hv_rnh");
     arm!("register_histogram_vec_with_registry!(name,help,labels,reg)", &cust, register_histogram_vec_with_registry!(a.clone(), help, label_names, reg), HistogramVec::new(HistogramOpts::new(a.clone(), help), label_names));
     let a = n("hv_rnhc");
@@ -403,15 +431,15 @@ pub fn run_case(cx: &mut Ctx) {
     arm!(
         "register_histogram_vec_with_registry!(name,help,labels,buckets,reg)",
         &cust,
-        register_histogram_vec_with_registry!(a.clone(), help, label_names, buckets.clone(), reg),
-        HistogramVec::new(HistogramOpts::new(a.clone(), help).buckets(buckets.clone()), label_names)
+        register_histogram_vec_with_registry!(a.clone(), help, label_names, vbuckets.clone(), reg),
+        HistogramVec::new(HistogramOpts::new(a.clone(), help).buckets(vbuckets.clone()), label_names)
     );
     let a = n("hv_rnhbc");
     arm!(
         "register_histogram_vec_with_registry!(name,help,labels,buckets,reg,)",
         &cust,
-        register_histogram_vec_with_registry!(a.clone(), help, label_names, buckets.clone(), reg,),
-        HistogramVec::new(HistogramOpts::new(a.clone(), help).buckets(buckets.clone()), label_names)
+        register_histogram_vec_with_registry!(a.clone(), help, label_names, vbuckets.clone(), reg,),
+        HistogramVec::new(HistogramOpts::new(a.clone(), help).buckets(vbuckets.clone()), label_names)
     );
     if cx.part.samples.len() < 2 {
         cx.part.sample(2, jobj! {"help" => help, "const_labels" => format!("{:?}", const_labels), "label_names" => format!("{:?}", label_names), "buckets" => format!("{:?}", buckets), "custom_registry_prefix" => format!("{:?}", prefix)});
